@@ -589,8 +589,8 @@ def _has_nonpositive_hit(c, wname, q, ex):
 ROOT_CAUSES = [
     ("WrappingMatcher.replace:boost>1:threshold-not-divided-by-boost", _rc_wrapping_replace, _has_boost_above_one),
     ("ArrayUnionMatcher:document-with-score<=0-is-no-match", _rc_array_union_positive, _has_nonpositive_hit),
-    ("CoordMatcher.replace:child-replace-keeps-scores-but-sheds-matching-terms(DisjunctionMax-below-Or(scale))",
-     _rc_coord_replace, _has_coord_over_dismax),
+    # (the narrower "CoordMatcher.replace sheds matching terms" root cause of the first round-4 run is the
+    #  replace half of the following one; a case explained by two recorded causes would not be attributable)
     ("CoordMatcher:quality-pruning-below-lowers-the-matching-term-count(DisjunctionMax-below-Or(scale))",
      _rc_coord_no_quality, _has_coord_over_dismax),
 ]
